@@ -73,8 +73,8 @@ def s1_selector(F, R, roles, h12, h10):
             for h in (h12, h10):
                 if h == l['ty'] or l['ty'].endswith(h) or ('&' + h) in l['ty']:
                     uses_ty.add(h)
-        if not ({h12, h10} <= (txt | uses_ty)):
-            continue
+        if not ({h12, h10} & (txt | uses_ty)):
+            continue     # the function does not touch either header form
         sg = supergraph(F, b['id'], opaque=lambda t, bb: bb['id'] in roles or has_loop(bb), tag='c16')
         where = fn_site(F, b['id'])
         try:
